@@ -853,6 +853,15 @@ def register(an):
         op = {'eq': 'Eq', 'ne': 'Ne', 'lt': 'Lt', 'le': 'Le', 'gt': 'Gt', 'ge': 'Ge'}[c['fn'].split('::')[-1]]
         if a[0] in ('int', 'bool') and b[0] in ('int', 'bool'):
             return an.binop(op, a, b, 'u64', frame, st)
+        if op in ('Eq', 'Ne') and a[0] == 'adt' and b[0] == 'adt' and a[1] == b[1] and a[2] is not None and b[2] is not None:
+            # field-less enums (`x != E::V` goes through the provided PartialEq::ne = !eq of core, which is not a workspace body):
+            # decided when the two variant sets are disjoint, or both are the same single variant
+            ad = an.prog.adts.get(a[1])
+            if ad is not None and ad.get('kind') == 'Enum' and all(not v.get('fields') for v in ad['variants']):
+                if not (a[2] & b[2]):
+                    return ('bool', ('const', op == 'Ne'))
+                if len(a[2]) == 1 and a[2] == b[2]:
+                    return ('bool', ('const', op == 'Eq'))
         return ('bool', B_UNK)
 
     @model('core::clone::Clone::clone')
@@ -1117,6 +1126,26 @@ def register(an):
             return NotImplemented     # a workspace iterator: analyse its `next`
         it = to_iter(an, args[0], frame, st)
         an.loop_iterators.add((frame.body.path, t.sp))
+        if getattr(an, 'unroll_concrete', False) and c['fn'].endswith('Iterator::next') and args[0][0] == 'ref' and it[0] == 'iter':
+            # decision tables over concrete inputs: an iterator over a short, fully known sequence is stepped element by element
+            # (its position is kept in the iterator value); anything not enumerable takes the abstract route below
+            cur = it
+            if cur[1] != 'list':
+                s3 = st.copy()
+                try:
+                    items = concrete_items(an, cur, frame, s3, t)
+                except Exception:
+                    items = None
+                if items is not None:
+                    st.env, st.mem, st.lo, st.hi, st.sets, st.cons = s3.env, s3.mem, s3.lo, s3.hi, s3.sets, s3.cons
+                    cur = ('iter', 'list', tuple(items), 0)
+            if cur[1] == 'list':
+                pos = cur[3]
+                if pos < len(cur[2]):
+                    an.write_ptr(args[0][1], ('iter', 'list', cur[2], pos + 1), frame, st)
+                    return mk_some(cur[2][pos])
+                an.write_ptr(args[0][1], cur, frame, st)
+                return mk_none()
         item = iter_item(an, it, frame, st, t)
         if item is None:
             return None
@@ -1135,6 +1164,20 @@ def register(an):
             if sr[0] != 'sref' or not sr[3].is_const() or not (0 <= sr[3].k <= 16):
                 return None
             return [('ref', ('E', sr, Lin.const(i))) for i in range(sr[3].k)]
+        if k == 'list':
+            return list(it[2][it[3]:])
+        if k == 'array':
+            n_, v_ = it[2], it[3]
+            if not isinstance(n_, int) or not (0 <= n_ <= 16) or v_[0] != 'array':
+                return None
+            out_ = [v_[2].get(i, v_[3]) for i in range(n_)]
+            return None if any(x is None for x in out_) else out_
+        if k == 'zip':
+            a_ = concrete_items(an, it[2], frame, st, t)
+            b_ = concrete_items(an, it[3], frame, st, t)
+            if a_ is None or b_ is None:
+                return None
+            return [('tuple', (x, y)) for x, y in zip(a_, b_)]
         if k in ('rev', 'copied', 'cloned', 'enumerate', 'map', 'filter', 'fuse'):
             inner = concrete_items(an, it[2], frame, st, t)
             if inner is None:
